@@ -751,11 +751,11 @@ for _anti in (False, True):
 
 
 # ---------------------------------------------------------------------------------------------
-# subvolume[il_a:il_b:il_c, xl_a:xl_b:xl_c, :]  (C02 / C13 / C14): line NUMBER slices with steps on ascending axes
+# subvolume[il_a:il_b:il_c, xl_a:xl_b:xl_c, :]  (C02 / C13 / C14): line NUMBER slices with steps on ascending and descending axes
 
 class SubvolumeGetitem(ReadContract):
     """SubvolumeAccessor.__getitem__ with inline / crossline subscripts by line number (start, stop, step all given) and the whole sample
-    axis, on ascending axes, steps positive multiples of the axis increment (grammar of C13):
+    axis, on ascending and descending axes, steps positive multiples of the axis increment (so negative on a descending axis: grammar of C13):
     IndexError iff a start is not a line number, a stop is neither a line number nor one increment past the last, or a range is empty;
     otherwise the decoded volume at inlines start, start+step, ... (< stop), crosslines likewise, every sample"""
     cls_name = 'SubvolumeAccessor'
@@ -770,7 +770,7 @@ class SubvolumeGetitem(ReadContract):
         info = []
         for (ax, n), dconc in zip((('ilines', g.nI), ('xlines', g.nX)), self.incs):
             a0, d0 = rd.fields[ax].prog
-            # the axis increment is a concrete positive constant per variant (keeps the line-number arithmetic linear); origin, counts,
+            # the axis increment is a concrete non-zero constant per variant (keeps the line-number arithmetic linear); origin, counts,
             # subscripts and step multiples stay symbolic
             c.assume(eq(d0, dconc))
             d = dconc
@@ -788,15 +788,16 @@ class SubvolumeGetitem(ReadContract):
         return dict(self=rd, _g=g, subscripts=tuple(subs), _info=info)
 
     def idx(self, a0, d, v):
-        return fdiv(sub(v, a0), d)
+        # position of line number v on the axis a0 + k*d; d is a concrete non-zero constant, negative on a descending axis
+        return fdiv(sub(v, a0), d) if d > 0 else fdiv(sub(a0, v), -d)
 
     def valid(self, a):
         conds = []
         for (a0, d, n, st, sp, m) in a['_info']:
             if st is None:
                 continue
-            on_st = And(eq(mod(sub(st, a0), d), 0), ge(self.idx(a0, d, st), 0), lt(self.idx(a0, d, st), n))
-            on_sp = And(eq(mod(sub(sp, a0), d), 0), ge(self.idx(a0, d, sp), 0), le(self.idx(a0, d, sp), n))
+            on_st = And(eq(mod(sub(st, a0), abs(d)), 0), ge(self.idx(a0, d, st), 0), lt(self.idx(a0, d, st), n))
+            on_sp = And(eq(mod(sub(sp, a0), abs(d)), 0), ge(self.idx(a0, d, sp), 0), le(self.idx(a0, d, sp), n))
             conds += [on_st, on_sp, lt(self.idx(a0, d, st), self.idx(a0, d, sp))]
         return And(*conds) if conds else True
 
@@ -820,7 +821,7 @@ class SubvolumeGetitem(ReadContract):
         c.ensure(result.fn(e) == O.Vpad(g, add(lo[0], mul(e[0], ms[0])), add(lo[1], mul(e[1], ms[1])), e[2]), 'elem')
 
 
-for _gv, _incs in ((True, (1, 1)), (True, (2, 3)), (False, (2, 3))):
+for _gv, _incs in ((True, (1, 1)), (True, (2, 3)), (False, (2, 3)), (True, (-2, -3)), (True, (3, -1)), (False, (-1, -2))):
     register(type('SubvolumeGetitem', (SubvolumeGetitem,), dict(given=_gv, incs=_incs)), 'accessors.py::SubvolumeAccessor.__getitem__', ['C02', 'C13', 'C14'], [CFG_DEFAULT[3], CFG_ZSLICE[0]], modes=('file',),
              tag=('slices given' if _gv else 'all default') + f',increments {_incs[0]}/{_incs[1]}')
 
